@@ -226,7 +226,11 @@ impl Property for C10 {
         let progs = self.programs(family, bytes, None);
         let mut s = format!("{} programs\n", progs.len());
         for p in progs.iter().take(2) {
-            s.push_str(&format!("--- {}\n{}\n", p.id, if p.main.len() > 1500 { &p.main[..1500] } else { &p.main }));
+            let mut cut = p.main.len().min(1500);
+            while !p.main.is_char_boundary(cut) {
+                cut -= 1;
+            }
+            s.push_str(&format!("--- {}\n{}\n", p.id, &p.main[..cut]));
         }
         s
     }
